@@ -37,7 +37,7 @@ _REQ = ([f"pk:{m}" for m in MUTS] + [f"sig:{m}" for m in MUTS] +
          "entry:PopVerify", "pairing_calls_checked", "python_-O:cases", "accepted:honest", "pos:last", "pos:first",
          "keyvalidate:True", "keyvalidate:False"] + [f"list:{m}" for m in (
              "none", "valid_zero_sum", "plus_torsion", "cancel_pair", "cancel_triple", "identity_extra", "small_order_pair",
-             "malformed_member", "off_curve_member")] + ["accepted:honest_list"])
+             "malformed_member", "off_curve_member", "bad_member_prefix_aggregate")] + ["accepted:honest_list"])
 REQUIRED_LABELS = {"quick": _REQ, "thorough": _REQ}
 
 
@@ -175,7 +175,7 @@ def o_case(ctx, case):
 
 
 LIST_MUTS = ("none", "valid_zero_sum", "plus_torsion", "cancel_pair", "cancel_triple", "identity_extra", "small_order_pair",
-             "malformed_member", "off_curve_member")
+             "malformed_member", "off_curve_member", "bad_member_prefix_aggregate")
 
 
 def o_list(ctx, case):
@@ -225,6 +225,28 @@ def o_list(ctx, case):
     elif mut == "off_curve_member":
         pks[a % n] = mutate("G1", pks[a % n], "off_curve", a, a % 5, b"")
     ok = mut == "none"
+    if mut == "bad_member_prefix_aggregate":
+        # an unusable key at position i and the honest aggregate of the signers BEFORE it (the identity for
+        # i = 0): a verifier that stops at the first bad key instead of rejecting sees a valid prefix
+        i = a % n
+        bad_keys = [B.pubkey_bytes(None), B.pubkey_bytes(bc.torsion_point("G1", a % 50)),
+                    B.pubkey_bytes(B.g1_add(pts[i], bc.small_point("G1", 3, 1))),
+                    bytes([pks[i][0] & 0x7F]) + pks[i][1:], pks[i][:47], (B.P + 1).to_bytes(48, "big")]
+        pks[i] = bad_keys[(a // 4) % len(bad_keys)]
+        hp_ = [B.pubkey_bytes(p_) for p_ in pts]
+        prefix = B.signature_bytes(blssig.aggregate_points(
+            [blssig.core_sign_point(k, (hp + m if suite == "aug" else m), blssig.DST[suite])
+             for k, hp, m in list(zip(sks, hp_, msgs))[:i]]))
+        _call(ctx, case, "lists", "AggregateVerify", lambda: S.AggregateVerify(pks, msgs, prefix), True,
+              f"key {i} of {n} is unusable; the signature aggregates only the signers before it")
+        if suite == "pop":
+            fpre = B.signature_bytes(blssig.aggregate_points([blssig.sign_point("pop", k, common) for k in sks[:i]]))
+            _call(ctx, case, "lists", "FastAggregateVerify", lambda: S.FastAggregateVerify(pks, common, fpre), True,
+                  f"key {i} of {n} is unusable; the signature aggregates only the signers before it")
+        ctx.label(f"list:{mut}")
+        ctx.nontrivial(("l", suite, mut, n, a))
+        ctx.sample(case, f"list:{mut}")
+        return
     if mut == "valid_zero_sum":
         # FastAggregateVerify must answer False (the aggregate key is the identity) without raising;
         # AggregateVerify with one message per key and an unrelated aggregate must answer False
@@ -434,6 +456,8 @@ def t_lists(ctx, shard, n):
                                                                         "valid_zero_sum")]
     if shard >= 3:
         ex = []
+    ex += [{"suite": sc.SUITES[(j + shard) % 3], "mut": "bad_member_prefix_aggregate", "n": 2 + j % 2, "a": 4 * (3 * shard + j) + (j + shard) % 4}
+           for j in range(3)]
     # an honest key plus a point of order 3, NOT in first position, with the honest aggregate, in the suites where the
     # pairing equation then still holds: distinct lists, because a randomised check errs on a fraction of them only
     ex += [{"suite": "basic", "mut": "plus_torsion", "n": 2 + (j % 2) * 2, "a": 4 * j + 3}
